@@ -1806,6 +1806,10 @@ func (n *node) unregisterProcess(p *process, reason error) {
 		// a supervisor restarts the child under the same name as soon as
 		// it gets the exit signal
 		n.names.Delete(p.name)
+		// and tell those who link/monitor the name right away: the next
+		// owner of the name must not inherit (and lose) these relations
+		pname := gen.ProcessID{Name: p.name, Node: n.name}
+		n.RouteTerminateProcessID(pname, reason)
 	}
 	n.RouteTerminatePID(p.pid, reason)
 	// drop the relations in which this process was the requester
@@ -1816,11 +1820,6 @@ func (n *node) unregisterProcess(p *process, reason error) {
 		n.waitprocesses.Done()
 	}
 	n.log.Trace("...unregisterProcess %s", p.pid)
-
-	if registered {
-		pname := gen.ProcessID{Name: p.name, Node: n.name}
-		n.RouteTerminateProcessID(pname, reason)
-	}
 
 	for _, a := range p.aliases {
 		n.aliases.Delete(a)
